@@ -781,8 +781,8 @@ def run(ck):
         "numpy arrays / lists and compares both and the caller's arrays after every operation (C18_frame)",
     ]
     ck.assumptions = [
-        "vertex coordinates are any values of one type V (the theorems are parametric in V; the cases use integer rows, "
-        "which numpy stores exactly)",
+        "vertex coordinates are any values of one type V (the theorems are parametric in V; the cases use an injective "
+        "code of float64 values, so end points and reloaded arrays are compared bit for bit; NaN/inf are not generated)",
         "group names are ASCII identifiers without '/', so the string path '/cell/morphology' names the node path",
         "file round trip domain: top-level names (cell ids, stand-alone morphology ids, after the writer's defaulting) "
         "are pairwise distinct and no cell's morphology is called 'vertices'",
